@@ -1,8 +1,8 @@
 """Per-property configuration of the driver: layers (test functions), budgets, evidence text."""
 
 
-def L(test, quick, thorough, shards=16, qenv=None, tenv=None, qtimeout=None, ttimeout=None, **kw):
-    d = {"test": test, "quick": {"checks": quick, "shards": 1, "env": qenv or {}},
+def L(test, quick, thorough, shards=16, qenv=None, tenv=None, qtimeout=None, ttimeout=None, qshards=1, **kw):
+    d = {"test": test, "quick": {"checks": quick, "shards": qshards, "env": qenv or {}},
          "thorough": {"checks": thorough, "shards": shards, "env": tenv or {}}}
     if qtimeout:
         d["quick"]["timeout"] = qtimeout
@@ -310,11 +310,17 @@ CHECKS["C12"] = {
             "is really restored from a copy); overlapping commands are released in a generated order, so their snapshot steps "
             "interleave; oracle: the file is one complete snapshot of a configuration in force (any subset of the in-progress, "
             "commuting commands applied), and after all commands of a group returned it equals the model's configuration; no "
-            "temporary file is left. Non-trivial = a crash point strictly inside a snapshot write. Distinct by plan hash.",
-    "layers": [L("TestVF_C12", 500, 6000)],
-    "technique": "crash-point enumeration driven by property-based testing (rapid): every step boundary of every generated command's snapshot write, with generated interleavings of overlapping writers",
-    "level_text": "Every step boundary of the snapshot write of every generated command is visited (enumeration inside each case); histories and interleavings are sampled.",
-    "level_note": "A killed process is modelled as 'the file as it is at a step boundary' (in-process); torn writes inside a single write(2), fsync and power loss are outside the statement.",
+            "temporary file is left. Non-trivial = a crash point strictly inside a snapshot write. Distinct by plan hash. "
+            "Second layer (TestVF_C12_Kill): the built binary is run for 1-3 incarnations over one state directory, each executing 1-6 "
+            "generated client commands, and is killed with SIGKILL for real - by strace fault injection on entering the K-th openat / "
+            "renameat / close / write / any file syscall of one of its threads (counted from the first command, or from exec to land in "
+            "start-up and restore), or while idle; after each death the file is read back (complete JSON document, equal to the model "
+            "before or after the command in flight, equal to the model in force when none was) and the next incarnation's `list` must "
+            "show the same configuration. Non-trivial there = the kill landed while a command was in flight.",
+    "layers": [L("TestVF_C12", 500, 6000), L("TestVF_C12_Kill", 12, 150, shards=16, qshards=8, pkg="cmd", binary=True)],
+    "technique": "crash-point enumeration driven by property-based testing (rapid): every step boundary of every generated command's snapshot write, with generated interleavings of overlapping writers; plus real SIGKILLs of the built binary at generated syscall boundaries (strace fault injection) across restarts",
+    "level_text": "Every step boundary of the snapshot write of every generated command is visited (enumeration inside each case); histories and interleavings are sampled. The process-kill layer samples kill instants at syscall granularity.",
+    "level_note": "In-process layer: a killed process is modelled as 'the file as it is at a step boundary'. Process layer: real kills at syscall entry (needs ptrace; without it every case is counted as excluded and the layer decides nothing). Torn writes inside a single write(2), fsync and power loss are outside the statement.",
 }
 
 CHECKS["C18"] = {
